@@ -125,7 +125,7 @@ PROPS = {
         technique="Lean 4 proof (prefix invariant of the delivery steps; stream-cut lemma for the remote command) + kill-point injection in three directions",
     ),
     "C03": dict(
-        modules=["Copia.Props.C03"], namespaces=["Copia.C03"], runner="bb", bb_module="bb_hubconc",
+        modules=["Copia.Props.C03", "Copia.Props.C03b"], namespaces=["Copia.C03"], runner="bb", bb_module="bb_hubconc",
         assumptions=_HUB_ASSUME + ["flock(2) mutual exclusion and release on process death, rename(2) atomic replace, O_TRUNC keeping the inode are trusted kernel semantics",
                                    "the interleaved transition system contains Put and Delete (`refinement`); Get is not a step kind — `C10.fetch_reads_one_complete_version` shows a published inode is never written again, so a Get is an atomic read at its open; List is not claimed atomic",
                                    "staging names are per process (WF.tmp_inj) — true of the repaired code (D6), false of the pinned code"],
@@ -206,7 +206,7 @@ PROPS = {
         technique="Lean 4 proof (invariant by induction over operation sequences, omega arithmetic) + differential correspondence on op sequences",
     ),
     "C19": dict(
-        modules=["Copia.Props.C19"], namespaces=["Copia.C19"], runner="rust",
+        modules=["Copia.Props.C19", "Copia.Props.C19b"], namespaces=["Copia.C19"], runner="rust",
         assumptions=COMMON_ASSUME + [
             "paths are valid UTF-8 and normalised relative paths (what `discover_local_files` / `find` produce): `to_string_lossy` and non-canonical PathBuf keys such as `./k` are outside the model",
             "glob_match is modelled in suffix form (a data refinement of the index loop with the same branch order); the index loop itself is tied by the exhaustive correspondence",
@@ -249,13 +249,13 @@ PROPS = {
         technique="Lean 4 proof (parser/printer round trips by structural induction, omega for little-endian arithmetic) + byte-exact differential correspondence",
     ),
     "C18": dict(
-        modules=["Copia.Props.C18"], namespaces=["Copia.C18"], runner="rust",
+        modules=["Copia.Props.C18", "Copia.Props.C18b"], namespaces=["Copia.C18"], runner="rust",
         assumptions=COMMON_ASSUME + [
             "Fingerprint equality is (digest, ftype) equality; digests are opaque (data-independence is itself a theorem)",
             "BTreeMap<PathBuf,_> iteration order = component-wise path order (re-implemented in the driver, cross-checked on a universe where it differs from byte order)",
         ],
         trusted_base=["src/bin/copia/reconcile.rs is compiled into the harness unchanged via #[path]"],
-        level_text="Kernel-checked theorems (decision = documented table for ALL fingerprint triples, mirror symmetry, data-independence, "
+        level_text="TRANSLATED FROM SOURCE: `reconcile_path` and `Fingerprint::same` are translated from reconcile.rs into Lean on every run (tools/rs2lean.py) and proved equal to the model (`source_reconcile_path_is_model`), so the theorems are about the current text of the function; an inequivalent edit breaks that proof. Kernel-checked theorems (decision = documented table for ALL fingerprint triples, mirror symmetry, data-independence, "
                    "no delete without base, tree-level set characterisation + sortedness for all maps) about a line-by-line model of reconcile.rs; "
                    "the model is tied to the real functions by an exhaustive run over the complete equality-pattern quotient and a 3-path universe",
         level_note="Trusts Lean's kernel (axioms propext, Quot.sound only), the hand-written model and the harness; reconcile.rs itself is compiled in unchanged. "
